@@ -149,6 +149,9 @@ def oracle(ck, extended):
     rt.guard(ck, oracle_layer, ck, 2, 'near_sym_a', 'qshift_a', 1e-2, 0, npr.standard_normal((1, 1, 2, 8)))
     for (order, qs_, force) in [(2, 'qshift_a', 'alt'), (2, 'qshift_06', 'alt'), (1, 'qshift_a', 'deferred'), (2, 'qshift_a', 'deferred')]:
         rt.guard(ck, oracle_layer, ck, order, 'near_sym_a', qs_, 1e-2, 0, npr.standard_normal((1, 2, 16, 8)), force)
+    # the channel axis at its extremes: counts beyond every power of two a blocked / chunked implementation would use
+    for (order, Cn) in [(1, 33), (2, 33), (2, 40), (1, 65)] + ([] if q else [(2, 65), (1, 129), (2, 130)]):
+        rt.guard(ck, oracle_layer, ck, order, 'near_sym_a', 'qshift_a', 1e-2, 0, npr.standard_normal((1, Cn, 8, 8)))
     n = (14 if q else 120) * (2 if extended else 1)
     for it in range(n):
         biort, qshift = rng.choice(FAMS)
